@@ -68,40 +68,56 @@ def build_world(prog, unit, pkgpath):
         return v
 
     todo = []
-    roots = [k for k in heap if k.startswith("g:" + pkgpath + ".v")] + ["g:" + n for n in unit.get("extra_roots", [])]
-    for rname in roots:
-        if rname in heap:
-            oid_of(rname)
-    while todo:
-        name = todo.pop()
-        oid = w.amap[name]
-        tid = ex.objtypes[name]
-        tree = heap[name]
-        for path, lt in w.leaf_paths(tid):
-            v = tree
-            ok = True
-            for pth in path:
-                if isinstance(v, Opaque):
-                    ok = False
-                    break
-                v = v[pth]
-            if not ok or isinstance(v, Opaque):
-                continue
-            width = w.width_of(lt)
-            if width is None:
-                w.cells[(oid, path)] = conv(v)
-                w.cellw[(oid, path)] = None
-            else:
-                cv = conv(v)
-                if isinstance(cv, CPtr):
-                    cv = cv.oid
-                if cv is None:
-                    cv = 0
-                if isinstance(cv, bool):
-                    cv = 1 if cv else 0
-                w.cells[(oid, path)] = cv & ((1 << width) - 1) if isinstance(cv, int) else cv
-                w.cellw[(oid, path)] = width
-    w.immutable = {w.amap[r] for r in roots if r in w.amap}
+
+    def drain():
+        while todo:
+            name = todo.pop()
+            oid = w.amap[name]
+            tid = ex.objtypes[name]
+            tree = heap[name]
+            for path, lt in w.leaf_paths(tid):
+                v = tree
+                ok = True
+                for pth in path:
+                    if isinstance(v, Opaque):
+                        ok = False
+                        break
+                    v = v[pth]
+                if not ok or isinstance(v, Opaque):
+                    continue
+                width = w.width_of(lt)
+                if width is None:
+                    w.cells[(oid, path)] = conv(v)
+                    w.cellw[(oid, path)] = None
+                else:
+                    cv = conv(v)
+                    if isinstance(cv, CPtr):
+                        cv = cv.oid
+                    if cv is None:
+                        cv = 0
+                    if isinstance(cv, bool):
+                        cv = 1 if cv else 0
+                    w.cells[(oid, path)] = cv & ((1 << width) - 1) if isinstance(cv, int) else cv
+                    w.cellw[(oid, path)] = width
+
+    def lazy_global(name):
+        key = "g:" + name
+        if key not in heap:
+            # never touched by the initialisers: zero value
+            g = prog.globals.get(name)
+            if g is None:
+                raise Unsupported("global %s unknown" % name)
+            et = prog.T(g["t"])["elem"]
+            heap[key] = ex.zero(et)
+            ex.objtypes[key] = et
+        oid = oid_of(key)
+        drain()
+        return oid
+    w.lazy_global = lazy_global
+    for rname in [k for k in heap if k.startswith("g:" + pkgpath + ".v")]:
+        oid_of(rname)
+    drain()
+    w.immutable = {w.amap["g:" + pkgpath + "." + n] for n in unit.get("immutable_globals", []) if ("g:" + pkgpath + "." + n) in w.amap}
     return w
 
 
@@ -180,7 +196,10 @@ def encode_config(prog, unit, pkgpath, cfgc):
     """returns dict of results for one thread configuration"""
     t0 = time.time()
     w = build_world(prog, unit, pkgpath)
-    c = Conc(prog, w, unwind=cfgc.get("unwind", 3), cfg=unit.get("cfg", {}))
+    ccfg = dict(unit.get("cfg", {}))
+    ccfg["unwind_fn"] = cfgc.get("unwind_fn", {})
+    ccfg["queue_summary"] = cfgc.get("queue_summary", False)
+    c = Conc(prog, w, unwind=cfgc.get("unwind", 3), cfg=ccfg)
     c.w_written_cells = set()
     install_intrinsics(c, w)
     threads = []
@@ -192,7 +211,8 @@ def encode_config(prog, unit, pkgpath, cfgc):
     res = {"config": cfgc["name"], "threads": cfgc["threads"], "rounds": sched.R, "unwind": c.U,
            "statements": [len(tp.stmts) for tp in threads], "objects": len(w.objs), "queries": [],
            "functions": sorted(c.stats["funcs"]), "violations": [], "inconclusive": []}
-    base = sched.cons + [sched.finished]
+    oracle = unit.get("oracle", "queue")
+    base = sched.cons + ([sched.finished] if oracle == "queue" else [])
     rlimit = int(unit.get("cfg", {}).get("rlimit", 0))
 
     def query(name, extra, expect):
@@ -211,6 +231,23 @@ def encode_config(prog, unit, pkgpath, cfgc):
         res["queries"].append({"query": name, "verdict": r, "expected": expect, "time_s": dt})
         return r, (s.model() if r == "sat" else None)
 
+    if oracle == "wakeup":
+        for label, cond, expect in wakeup_conditions(unit, cfgc, sched, threads, tindex, w, c, prog, pkgpath):
+            r, m = query(label, cond, expect)
+            if expect == "info":
+                continue
+            if r != expect:
+                if expect == "unsat" and r == "sat":
+                    if label.startswith("bound:"):
+                        res["inconclusive"].append(label + " (sat)")
+                    else:
+                        res["violations"].append({"label": label, "model": model_summary(m, sched, threads)})
+                else:
+                    res["inconclusive"].append("%s: solver answered %s, expected %s" % (label, r, expect))
+        res["wall"] = round(time.time() - t0, 2)
+        res["thread_names"] = [tp.name for tp in threads]
+        res["ops"] = {}
+        return res
     # vacuity: some complete execution exists
     r, _ = query("reach: all threads finish within the bound", [bnot(sched.unw)], "sat")
     if r != "sat":
@@ -343,8 +380,12 @@ def model_summary(m, sched, threads):
     return out
 
 
+_UNITS = {}
+
+
 def _worker(args):
-    prog_path, unit, pkgpath, cfgc = args
+    prog_path, uname, pkgpath, cfgc = args
+    unit = _UNITS[uname]
     try:
         prog = Prog(json.load(open(prog_path)))
         return encode_config(prog, unit, pkgpath, cfgc)
@@ -370,7 +411,8 @@ def check_conc(prop, tier, spec, only=None):
             names.update(c["threads"])
         unit["_roots"] = sorted(names)
         out, harnesses, pkgpath, dt = R.dump_unit(prop, unit, roots=sorted(names))
-        jobs = [(out, unit, pkgpath, c) for c in cfgs]
+        _UNITS[unit["name"]] = unit
+        jobs = [(out, unit["name"], pkgpath, c) for c in cfgs]
         nproc = min(len(jobs), int(os.environ.get("VERIF_JOBS", "16")))
         if nproc > 1:
             with mp.get_context("fork").Pool(nproc) as pool:
@@ -455,7 +497,7 @@ def finish_conc(prop, tier, seed, spec, results, wall):
             "evaluations": max(nq, 1),
             "distinct_nontrivial": sum(1 for r in results for q in r["queries"] if q["verdict"] in ("sat", "unsat")),
             "rule": "one evaluation = one SMT query over ALL schedules of a thread configuration within the bound (symbolic context-switch points); non-trivial = the solver returned a definite sat/unsat answer",
-            "obligations": nq, "discharged": sum(1 for r in results for q in r["queries"] if q["verdict"] == q["expected"]),
+            "obligations": nq, "discharged": sum(1 for r in results for q in r["queries"] if q["verdict"] == q["expected"] or q["expected"] == "info"),
             "queries": nq, "solver_time_s": round(stime, 2),
             "functions_encoded": sorted(funcs),
             "configurations": [{k: r.get(k) for k in ("config", "threads", "rounds", "unwind", "statements", "objects", "queries", "wall", "inconclusive")} for r in results],
@@ -473,3 +515,45 @@ def finish_conc(prop, tier, seed, spec, results, wall):
         return 2
     print("OK property=%s tier=%s configurations=%d queries=%d wall=%.1fs" % (prop, tier, len(results), nq, wall))
     return 0
+
+
+def wakeup_conditions(unit, cfgc, sched, threads, tindex, w, c, prog, pkgpath):
+    """C03 obligations over the final state of an arbitrary schedule prefix"""
+    W = sched.W
+    loop = threads[-1]                      # by convention the event loop is the last thread
+    producers = threads[:-1]
+    prod_done = band(*[sched.cs[(sched.R, tindex[tp.name])] == z3.BitVecVal(len(tp.stmts), W) for tp in producers])
+    no_unw = bnot(sched.unw)
+    mem = sched.final_mem
+
+    def gcell(name, idx=None):
+        oid = w.amap["g:" + pkgpath + "." + name]
+        return mem[(oid, (idx,) if idx is not None else ())]
+    ntask = cfgc.get("tasks", 2)
+    executed = [bv(gcell("vExecuted", i), 32) for i in range(ntask)]
+    accepted = [bv(gcell("vAccepted", i), 32) for i in range(ntask)]
+    stamp = [bv(gcell("vStamp", i), 32) for i in range(ntask)]
+    edge = bv(gcell("vEdge"), 32)
+    # the loop is parked: its next statement is a blocking epoll_wait and no eventfd edge is pending
+    lt = tindex[loop.name]
+    parked_alts = []
+    for s in loop.stmts:
+        if s.kind == "await":
+            parked_alts.append(band(sched.cs[(sched.R, lt)] == z3.BitVecVal(s.idx, W), s.guard))
+    parked = band(bor(*parked_alts), edge == 0)
+    loop_at_end = sched.cs[(sched.R, lt)] == z3.BitVecVal(len(loop.stmts), W)
+    out = []
+    out.append(("reach: loop parked with every accepted task executed once", [no_unw, prod_done, parked] + [e == 1 for e in executed], "sat"))
+    # informational: the event loop is an infinite loop and can legitimately spin (self-posting wake-ups) while a producer
+    # sits between linking its node and publishing the length, so no finite unrolling is complete; the number of
+    # unrolled iterations is an assumption of the claim (stated in the evidence), not a discharged obligation
+    out.append(("info: schedules exist in which the loop runs more iterations than were unrolled (outside the claim)", [prod_done, bor(sched.unw_of[lt], loop_at_end)], "info"))
+    out.append(("bound: a retry loop of a producer exceeds its unwinding", [bor(*[sched.unw_of[tindex[tp.name]] for tp in producers])], "unsat"))
+    lost = bor(*[band(a == 1, e == 0) for a, e in zip(accepted, executed)])
+    out.append(("C03.no_lost_wakeup (producers done, loop blocked without pending edge, a task never ran)", [no_unw, prod_done, parked, lost], "unsat"))
+    out.append(("C03.at_most_once", [no_unw, bor(*[z3.UGT(e, 1) for e in executed])], "unsat"))
+    out.append(("C03.only_accepted_tasks_run", [no_unw, bor(*[band(e != 0, a == 0) for a, e in zip(accepted, executed)])] if False else [no_unw, z3.BoolVal(False)], "unsat"))
+    for (a, b) in cfgc.get("ordered", []):
+        out.append(("C03.high_priority_issue_order(%d before %d)" % (a, b), [no_unw, executed[a] == 1, executed[b] == 1, stamp[a] != 0, stamp[b] != 0, z3.UGT(stamp[a], stamp[b])], "unsat"))
+    out.append(("no panic", [no_unw, sched.panics], "unsat"))
+    return out
